@@ -73,6 +73,36 @@ type Session struct {
 	// ReplayTest names the Drive-based test that can replay this session's
 	// failing cases (for enumerations that share a run function with one).
 	ReplayTest string
+	inflight   *os.File // the case being evaluated right now, for the driver to pick up if the process dies
+}
+
+// SetInflight records the case about to be evaluated in inflight-<prop>-<test>-<shard>.json: if the code under
+// test brings the whole test process down (a Go fatal error, a panic on a goroutine of its own) no violation
+// can be recorded from inside, and the driver turns this file into the replay file. ClearInflight empties it.
+func (s *Session) SetInflight(c interface{}) {
+	if s.outDir == "" {
+		return
+	}
+	if s.inflight == nil {
+		f, err := os.OpenFile(filepath.Join(s.outDir, fmt.Sprintf("inflight-%s-%s-%s.json", s.Prop, s.Test, s.shard)), os.O_CREATE|os.O_RDWR|os.O_TRUNC, 0644)
+		if err != nil {
+			return
+		}
+		s.inflight = f
+	}
+	test := s.Test
+	if s.ReplayTest != "" {
+		test = s.ReplayTest
+	}
+	b, _ := json.Marshal(map[string]interface{}{"property": s.Prop, "test": test, "case": json.RawMessage(canon(c))})
+	s.inflight.WriteAt(b, 0)
+	s.inflight.Truncate(int64(len(b)))
+}
+
+func (s *Session) ClearInflight() {
+	if s.inflight != nil {
+		s.inflight.Truncate(0)
+	}
 }
 
 func Begin(prop, test, rule string) *Session {
@@ -226,7 +256,9 @@ func Drive[C any](t *testing.T, prop, test, rule string, gen func(*rapid.T) C, r
 	runOne := func(c C) *Result {
 		var r *Result
 		g := &Result{}
+		s.SetInflight(c)
 		Guard(g, func() { r = run(c) })
+		s.ClearInflight()
 		if g.Err != "" {
 			if r == nil {
 				r = g
